@@ -153,8 +153,41 @@ def _strict(py, replies, h):
     return None
 
 
+def infinite_check(p):
+    """Implementation-level (an infinite weight is outside the model's good runs): after fills with an infinite weight every
+    total is 'inf' (and some statistics 'nan'); the document is still strict JSON, loads, and re-serialises to itself."""
+    spec = p["spec"]
+    rows = [(r[0], r[1]) for r in p["sa"]][:3]
+    if not rows:
+        return []
+    try:
+        h = gen.build(spec)
+    except Exception:  # noqa: BLE001
+        return []
+    try:
+        for i, (d, w) in enumerate(rows):
+            h.fill(d, float("inf") if i != 1 else w)
+    except Exception:  # noqa: BLE001
+        return []   # a quantity that raises on this record, or a type error: not about serialisation
+    try:
+        doc = h.toJson()
+        json.dumps(doc, allow_nan=False)
+    except Exception as e:  # noqa: BLE001
+        return ["after fills with an infinite weight toJson() is not strict JSON: %s: %s" % (type(e).__name__, str(e)[:200])]
+    try:
+        r = Factory.fromJson(doc)
+    except Exception as e:  # noqa: BLE001
+        return ["after fills with an infinite weight Factory.fromJson rejects the toJson() document: %s: %s" % (type(e).__name__, str(e)[:200])]
+    d = execs.diff_doc(execs.canon_doc(r.toJson()), execs.canon_doc(doc))
+    if d:
+        return ["after fills with an infinite weight the reload re-serialises to a different document: %s" % d]
+    return []
+
+
 def oracle(case, py, replies):
-    return common.eval_expect(case, py, replies)
+    from runner import dec
+
+    return common.eval_expect(case, py, replies) + infinite_check(dec(case["params"]))
 
 
 stats = common.basic_stats
